@@ -211,23 +211,24 @@ Print Assumptions ft_real_inverse_recovers_input_partial.
    input" is FALSE of the faithful model: the code accepts half-complex with an unshifted
    non-last axis at construction (only the last axis is checked) and then fails -- findings
    ft-halfcomplex-unshifted-axis / ft-real-unshifted-pyfftw-inverse.  What the model (and the
-   code, by the correspondence) does on such a configuration: *)
+   code, by the correspondence) does on such a configuration, with the variant switches set to
+   "defect present" (first arguments; the harness measures them on every run): *)
 Theorem ft_halfcomplex_unshifted_refuted :
   exists (shifts : list bool),
-    @ft_init_status R _ [mk_axis 0 3 4; mk_axis 0 4 5] [0; 1]%nat shifts true false = SOk
-    /\ ft_inverse_status false true true shifts = STypeErr      (* numpy: inverse raises *)
+    @ft_init_status R _ false [mk_axis 0 3 4; mk_axis 0 4 5] [0; 1]%nat shifts true false = SOk
+    /\ ft_inverse_status true false true true shifts = STypeErr      (* numpy: inverse raises *)
     /\ ft_forward_status true true true shifts = SOtherErr.     (* pyfftw: forward raises *)
 Proof. exact ft_hc_unshifted_status. Qed.
 Theorem ft_real_unshifted_pyfftw_refuted :
   exists (shifts : list bool),
-    ft_inverse_status true true false shifts = STypeErr /\ ft_inverse_status false true false shifts = SOk.
+    ft_inverse_status true true true false shifts = STypeErr /\ ft_inverse_status true false true false shifts = SOk.
 Proof. exact ft_real_unshifted_status. Qed.
 (* DFT: the inverse onto a real space without half-complex is rejected by pyfftw, and the numpy
    half-complex inverse rejects odd lengths (findings dft-inverse-real-nonhc-pyfftw,
    dft-inverse-hc-odd-numpy) *)
 Theorem dft_inverse_current_code_refuted :
-  dft_inverse_status true true false true [4]%nat [0]%nat = SValueErr
-  /\ dft_inverse_status true true false false [4]%nat [0]%nat = SValueErr
-  /\ dft_inverse_status false true true false [5]%nat [0]%nat = SValueErr
-  /\ dft_inverse_status false true true false [4]%nat [0]%nat = SOk.
+  dft_inverse_status true true true true false true [4]%nat [0]%nat = SValueErr
+  /\ dft_inverse_status true true true true false false [4]%nat [0]%nat = SValueErr
+  /\ dft_inverse_status true true false true true false [5]%nat [0]%nat = SValueErr
+  /\ dft_inverse_status true true false true true false [4]%nat [0]%nat = SOk.
 Proof. exact dft_inverse_status_examples. Qed.
